@@ -220,7 +220,10 @@ func cornerArms(c *core.Ctx, f *core.Func) (holder ast.Stmt, topLeft, bottomLeft
 			var labels []string
 			for _, cc := range st.Body.List {
 				cl := cc.(*ast.CaseClause)
-				ft := len(cl.Body) > 0 && func() bool { b, ok := cl.Body[len(cl.Body)-1].(*ast.BranchStmt); return ok && b.Tok == token.FALLTHROUGH }()
+				ft := len(cl.Body) > 0 && func() bool {
+					b, ok := cl.Body[len(cl.Body)-1].(*ast.BranchStmt)
+					return ok && b.Tok == token.FALLTHROUGH
+				}()
 				if cl.List == nil {
 					labels = append(labels, "default")
 					prevDefaultFT = ft && len(cl.Body) == 1
